@@ -1,6 +1,7 @@
 package chain
 
 import (
+	"os"
 	"fmt"
 	"math/rand"
 	"strings"
@@ -56,6 +57,9 @@ func (m *MonC11) Genesis(w *World) {
 // ignoredAfterFork: fields the statement does not list and that legitimately depend on the chain's own
 // history (validator bookkeeping of the running set, block-time window behind max gas).
 func ignoredAfterFork(path string) bool {
+	if os.Getenv("SIM_C11_ALL") != "" && path != "max_gas" && path != "slashed" && !strings.HasSuffix(path, "/accum") { // development aid: show validator-record differences too
+		return false
+	}
 	return strings.HasPrefix(path, "val/") || path == "max_gas" || path == "slashed"
 }
 
@@ -116,6 +120,10 @@ func (m *MonC11) AfterBlock(w *World, b *BlockCtx) {
 	// feed running forks
 	keep := m.forks[:0]
 	for _, f := range m.forks {
+		if v := os.Getenv("SIM_C11_ALL"); v != "" && v != fmt.Sprint(f.from) {
+			keep = append(keep, f)
+			continue
+		}
 		res := f.t.Node.ExecBlock(b.Req, nil)
 		if res.Err != nil {
 			w.Report("C11", "round-trip", "fork-panics", fmt.Sprintf("chain forked from the export of height %d panics in block %d: %v\n%s", f.from, b.Height, res.Err, trimStack(res.Err.Stack)), b.Height)
@@ -140,6 +148,21 @@ func (m *MonC11) AfterBlock(w *World, b *BlockCtx) {
 		for _, d := range DiffFlat(Flatten(&b.Cur.Raw), Flatten(&ex)) {
 			if !ignoredAfterFork(d.Path) {
 				diffs = append(diffs, d)
+			}
+		}
+		if len(diffs) > 0 && f.blocks <= 120 {
+			// a chain started from a genesis is in its start-up grace period for 120 blocks: absent
+			// validators are switched off but not jailed. Not transaction behaviour; stop following.
+			only := true
+			for _, d := range diffs {
+				if !strings.HasSuffix(d.Path, "/jailed") {
+					only = false
+				}
+			}
+			if only {
+				w.Probe("c11_fork_left_at_grace_period_jail")
+				f.t.Node.Release()
+				continue
 			}
 		}
 		if len(diffs) > 0 && f.withheld {
